@@ -4,6 +4,7 @@ Labelled-line diff oracle: bodies are sequences of atoms with unique ids, so the
 `reuse annotate` can be checked line by line against what went in.
 """
 
+import os
 import shutil
 
 from .. import annot, trees
@@ -54,8 +55,12 @@ def make_body(rng, st, short, header_pos, bom, with_decl):
                 out.append(("A", f"K{nid()} code line = value"))
             elif r < 0.5:
                 out.append(("A", rng.choice(["    ", "\t", "  "]) + f"K{nid()} indented"))
-            elif r < 0.6:
+            elif r < 0.57:
                 out.append(("A", f"K{nid()} trailing blanks" + rng.choice([" ", "   ", "\t"])))
+            elif r < 0.6:
+                # characters str.splitlines() would split on, but which are not line endings of the file
+                odd = rng.choice(["\x0c", "\x0b", "\x1c", "\x1d", "\x1e", "\x85", "\u2028", "\u2029"])
+                out.append(("A", rng.choice([f"K{nid()} odd {odd} inside", f"{odd}K{nid()} page break", f"K{nid()} s = '{odd}'"])))
             elif r < 0.75:
                 for _ in range(rng.randint(1, 3)):
                     out.append(("B", ""))
@@ -259,6 +264,12 @@ def run_case(case, ctx):
                     res.violation("refused-but-changed", "annotate failed yet changed the file", **r.brief())
                 continue
             out = f.read_bytes()
+            if os.path.exists(str(f) + ".license"):
+                # the content classifier took the file for binary (control characters): the header went to FILE.license
+                res.cell("went-to-dot-license")
+                if out != text.encode("utf-8"):
+                    res.violation("file-changed-although-header-went-to-dot-license", f"FILE.license was written and FILE changed as well ({desc})")
+                continue
             try:
                 out_text = out.decode("utf-8")
             except UnicodeDecodeError:
